@@ -309,6 +309,13 @@ func (g *Gen) RegSet(cfg GenCfg) []*Reg {
 				params = append(params, Param{Dep: dp})
 			}
 		}
+		// a group field that also carries a name tag: the name is ignored, the field is a group dependency for the
+		// build-time validations (cycles, lifetimes) as well as at run time
+		for k := range params {
+			if params[k].Dep.Group != 0 && params[k].Dep.Name == 0 && g.p(0.2) {
+				params[k].Dep.Name = 1 + g.n(3)
+			}
+		}
 		reg.Form.Params = params
 		reg.Form.InObj = needIn || (len(params) > 0 && g.p(cfg.PInObj))
 		// scripts
